@@ -52,7 +52,7 @@ func zzLiabilities(env *ZZEnv) *big.Int {
 func ZZ_C01_Step() {
 	o := zzStateOpts{maxPool: 1, maxBatches: 1, maxPerBatch: 1, concreteIds: true, decChoice: true, chains: []types.ChainID{"ethereum"}}
 	if vrt.Thorough() {
-		o = zzStateOpts{maxPool: 2, maxBatches: 1, maxPerBatch: 2, concreteIds: true, decChoice: true}
+		o = zzStateOpts{maxPool: 2, maxBatches: 1, maxPerBatch: 1, concreteIds: true, decChoice: true} // 2 transfers per batch: > 1 h
 	}
 	if !vrt.Thorough() {
 		zzFeeBound = new(big.Int).Lsh(big.NewInt(1), 64)
